@@ -224,7 +224,8 @@ def element_parsing(
             if element.editorial_end:
                 editorial = False
 
-        if element is None or editorial:
+        # (a KernElement is a marker of the parser, not an object of the score)
+        if element is None or editorial or isinstance(element, KernElement):
             continue
 
         # Handle generic notes
